@@ -402,8 +402,17 @@ CanonDiff(a, da, b, db_) ==
           /\ ~(("file:" \o p) \in Keys(a) /\ DynOutputOfPending(a, "file:" \o p))
           /\ ~(("file:" \o p) \in Keys(b) /\ DynOutputOfPending(b, "file:" \o p))
           /\ DiskContent(da, p) # DiskContent(db_, p)}}
+\* F23: the two graphs differ only in whether the remembered state of a DETACHED former output
+\* (kept because an attached step still names it as input) is BUILT or OUTDATED
+DetachedMemoryOnly(a, b) ==
+  /\ Keys(a) = Keys(b)
+  /\ \A k \in Keys(a) : NodeTuple2(a, k) # NodeTuple2(b, k) =>
+        /\ a.nodes[k].kind = "file" /\ a.nodes[k].detached /\ b.nodes[k].detached
+        /\ a.nodes[k].creator = b.nodes[k].creator
+        /\ {a.nodes[k].fstate, b.nodes[k].fstate} \subseteq {"BUILT", "OUTDATED"}
 Canon2Diff(a, b) ==
-     {<<"graph_nodes_differ", PickOne(SymDiff(Canon2Nodes(a), Canon2Nodes(b)))>> :
+     {<<"graph_nodes_differ", PickOne(SymDiff(Canon2Nodes(a), Canon2Nodes(b))),
+        IF DetachedMemoryOnly(a, b) THEN "F23-detached-output-memory-depends-on-schedule" ELSE "">> :
           x \in {1} \ {i \in {1} : Canon2Nodes(a) = Canon2Nodes(b)}}
   \cup {<<"graph_edges_differ", PickOne(SymDiff(Canon2Edges(a), Canon2Edges(b)))>> :
           x \in {1} \ {i \in {1} : Canon2Edges(a) = Canon2Edges(b)}}
